@@ -233,6 +233,10 @@ var (
 	budgetDog   *time.Timer
 )
 
+// UlidOrder makes the order of the ids handed out by ulid.Make (ascending or descending) a schedule
+// choice of the executor; natively ULIDs are what they are (random within a millisecond).
+func UlidOrder() {}
+
 // Freeze marks everything reachable from x as read-only from now on.  Natively
 // the caller passes a snapshot comparison instead (FreezeNative).
 func Freeze(label string, x any) {}
